@@ -10,7 +10,7 @@ def one(mid, tier, props=None):
     out = {"id": mid}
     for pid in (props or [meta["breaks_property"]]):
         evd = tempfile.mkdtemp(prefix="seedev.")
-        env = dict(os.environ, VERIF_EVIDENCE_DIR=evd, VERIF_JOBS="6")
+        env = dict(os.environ, VERIF_EVIDENCE_DIR=evd, VERIF_JOBS="6", PYVC_REPLAY_DIR=evd)
         p = subprocess.run([f"{V}/tools/with_patch.sh", f"{V}/seeded/{mid}/patch.diff", f"{V}/check", pid, "--tier", tier],
                            capture_output=True, text=True, env=env, cwd=V)
         lines = [l for l in p.stdout.splitlines() if l.startswith(("VIOLATION", "UNDECIDED", "KNOWN-FINDING", "GUARD", pid + ":"))]
